@@ -108,7 +108,7 @@ def setup(ctx):
     CTX = ctx
     probes.hook(md.fvm1d, "rhs", after=monitor_rhs1d)
     probes.hook(md.fvm2dcart, "rhs", after=monitor_rhs2d)
-    ctx.require("rhs1d:per", "rhs1d:sym", "rhs1d:open", "rhs2d:per", "rhs2d:mixed", "solve:explicit", "solve:implicit", "solve:open-boundaries")
+    ctx.require("rhs1d:per", "rhs1d:sym", "rhs1d:open", "rhs2d:per", "rhs2d:mixed", "solve:explicit", "solve:implicit", "solve:open-boundaries", "history:directives")
 
 
 def teardown(ctx):
@@ -348,3 +348,48 @@ def solve1d_open(ctx, rng, idx):
         scale = np.sum(s.mesh.vol() * np.abs(s.field.data[i])) + sum((times[k + 1] - times[k]) * (abs(log[k][1][i]) + abs(log[k][2][i])) for k in range(nstep)) + 1e-300
         ctx.close("solve:open-boundaries", (I1[i] - exp) / scale, 1e-12, "solve1d/open/integral-not-changed-by-boundary-fluxes", {"eq": i, "I0": I0[i], "I1": I1[i], "expected": exp}, cls="solve:open-boundaries")
     ctx.nontrivial("open", iname, cfl, nstep, s.desc())
+
+
+@group(quick=150, thorough=5000)
+def history_directives(ctx, rng, idx):
+    """call histories that mix solve()/restart() with and without the 'dtlocal' directive, on one integrator object and across
+    objects: a solve that asks for ONE global time step must stay conservative and bit-identical whatever was asked before"""
+    iname = ["explicit", "rk2", "rk3ssp", "rk4", "lsrk25bb"][idx % 5]
+    s = gen.scenario1d(rng, bc="per", nmax=12, fluxes=gen.UPWIND_FLUXES, mach_max=1.2, meshkinds=["refined", "morphed", "arb"], recons=["extrapol1", "muscl_minmod", "extrapol2"])
+    cfl = float(rng.uniform(0.1, 0.4))
+    n1, n2 = int(rng.integers(1, 5)), int(rng.integers(1, 4))
+    ctx.describe(integrator=iname, cfl=cfl, n1=n1, n2=n2, **s.desc())
+    make = lambda: gen.integ(iname)(s.mesh, s.disc)
+    ref = make().solve(s.field, cfl, stop={"maxit": n1 + n2})[-1]            # reference: global time step, default directives
+    if not all(np.all(np.isfinite(q)) for q in ref.data):
+        raise core.Skip("nonfinite")
+    I0 = _integral(s.mesh, s.field, s.model.neq)
+    def judge(f, what):
+        same = f.time == ref.time and all(np.array_equal(a, b) for a, b in zip(f.data, ref.data))
+        ctx.true("history:directives", same, "history/global-step-solve-changed-by-earlier-dtlocal-call/" + what,
+                 {"dtime": f.time - ref.time, "max diff": max(np.max(np.abs(a - b)) for a, b in zip(f.data, ref.data))}, cls="history:directives")
+        I1 = _integral(s.mesh, f, s.model.neq)
+        for i in range(s.model.neq):
+            sc = np.sum(s.mesh.vol() * np.abs(s.field.data[i])) * (n1 + n2) + 1e-300
+            ctx.close("history:conservation", (I1[i] - I0[i]) / sc, TOL_EXPL, "history/global-step-solve-not-conservative-after-dtlocal-call/" + what, {"eq": i}, cls="history:directives")
+    # path 1: solve() with default directives, then restart() asking for dtlocal; afterwards ordinary solves on the same and on fresh objects
+    S = make()
+    r1 = S.solve(s.field, cfl, stop={"maxit": n1})
+    S.restart(r1[-1], cfl, stop={"maxit": 1}, directives={"dtlocal": True})
+    judge(make().solve(s.field, cfl, stop={"maxit": n1 + n2})[-1], "fresh-object-default-arguments")
+    judge(S.solve(s.field, cfl, stop={"maxit": n1 + n2})[-1], "same-object-default-arguments")
+    # path 2: the caller's own directives dictionary is not modified
+    mine = {}
+    S2 = make()
+    r2 = S2.solve(s.field, cfl, stop={"maxit": n1}, directives=mine)
+    S2.restart(r2[-1], cfl, stop={"maxit": 1}, directives={"dtlocal": True})
+    ctx.true("history:directives", mine == {}, "history/caller-directives-dictionary-modified", {"dict": mine}, cls="history:directives")
+    # path 3: solve(dtlocal) then restart() WITHOUT directives continues with a global step: same as the restart on a fresh object
+    S3 = make()
+    S3.solve(s.field, cfl, stop={"maxit": 2}, directives={"dtlocal": True})
+    a = S3.restart(r1[-1], cfl, stop={"maxit": n2})[-1]
+    b = make().restart(r1[-1], cfl, stop={"maxit": n2})[-1]
+    ctx.true("history:directives", a.time == b.time and all(np.array_equal(x, y) for x, y in zip(a.data, b.data)), "history/restart-without-directives-keeps-dtlocal-of-earlier-solve",
+             {"dtime": a.time - b.time}, cls="history:directives")
+    judge(a if False else make().restart(r1[-1], cfl, stop={"maxit": n2})[-1], "restart-fresh-object")
+    ctx.nontrivial("history", iname, cfl, n1, n2, s.desc())
